@@ -21,7 +21,7 @@ func (c06) Gen(r *simrt.Rand, idx int, tier string) *Case {
 	g := DefaultGen()
 	g.TieWeights = r.P(0.5)
 	c := &Case{}
-	subs := []string{"balance", "balance-ties", "balance-valued", "print", "checkwrite", "transcode", "weights", "returns", "infer", "import", "price-conflict"}
+	subs := []string{"balance", "balance-ties", "balance-valued", "print", "checkwrite", "transcode", "weights", "returns", "infer", "import", "price-conflict", "price-paths"}
 	c.Sub = subs[idx%len(subs)]
 	switch c.Sub {
 	case "balance-ties":
@@ -30,6 +30,37 @@ func (c06) Gen(r *simrt.Rand, idx int, tier string) *Case {
 		return genInferCase(r, c, true)
 	case "import":
 		return genImportCase(r, c)
+	}
+	if c.Sub == "price-paths" {
+		// a price graph with alternative derivations (C12's generator): whichever
+		// derivation knut picks, it must pick the same one on every run
+		pc := (c12{}).Gen(r, idx, tier)
+		if pc.Sub == "zero-price" {
+			return nil
+		}
+		qday := D(2020, 1, 1) + 6
+		var b strings.Builder
+		b.WriteString("2019-12-01 open Assets:P\n2019-12-01 open Equity:Equity\n\n")
+		for _, d := range pc.J.Dirs {
+			b.WriteString(d.Render())
+		}
+		b.WriteString("\n")
+		for _, cm := range pc.Args {
+			fmt.Fprintf(&b, "%s \"buy %s\"\nEquity:Equity Assets:P %d %s\n\n", qday, cm, r.Range(1, 50), cm)
+		}
+		c.Files = map[string]string{"/w/p.knut": b.String()}
+		c.Cmd = "balance"
+		c.Today = "2030-01-01"
+		c.Args = []string{"--color=false", "--digits", "8", "-a", "-v", pc.Val, "-s", ".", "--to", qday.String(), "/w/p.knut"}
+		c.Scheds = []Sched{CanonSched()}
+		for i := 1; i < 8; i++ {
+			s := RandSched(r)
+			if s.MapMode == 0 {
+				s.MapMode = 3
+			}
+			c.Scheds = append(c.Scheds, s)
+		}
+		return c
 	}
 	if c.Sub == "price-conflict" {
 		// two declarations for one pair on one day, in different files: whatever
